@@ -23,6 +23,8 @@ import EaselModel.Alphabet.MatchLemmas
 import EaselModel.Alphabet.FetchLemmas
 import EaselModel.Alphabet.GetAllocLemmas
 import EaselModel.Alphabet.ObjLemmas
+import EaselModel.Alphabet.CaseLemmas
+import EaselModel.Alphabet.ChecksumLemmas
 /-! # C08 — property theorems (statements + glue only; lemmas live in Alphabet/*.lean)
 
 `G.dna`, `G.rna`, `G.amino`, `G.coins`, `G.dice` are the tables dumped from the code under check on this run
@@ -998,6 +1000,72 @@ example : (Sq.mkObj false false (str "ACGT") (some (str "<..>")) [str "1234"]).a
   decide
 example (o : Sq.SqObj) (h : Sq.mkObj true false [0, 1, 2] (some (str "<.>")) [] = some o) : o.Inv :=
   Sq.SqObj.mkObj_inv true [0, 1, 2] (some (str "<.>")) [] (by decide) (by decide) o h
+
+/-! ## round 6: case-insensitivity of the input map; the value of `esl_sq_Checksum` -/
+
+/-- `esl_alphabet_CreateCustom("ACGT-N*~", 4, 8)` -/
+def demoCustomBase : Alphabet := (createCustom (str "ACGT-N*~") 4 8).getD G.dna
+
+/-- **built-in alphabets, regenerated tables**: for ALL 26 letters the upper-case and the lower-case ENTRY of the input map
+    are equal (same code, or both `eslDSQ_ILLEGAL`) — no built-in constructor leaves a symbol or synonym whose two cases map
+    differently; hence each table is `CaseInsensitive` in the sense used for custom alphabets -/
+theorem std_case_insensitive :
+    (∀ a ∈ [G.dna, G.rna, G.amino, G.coins, G.dice], a.sameCaseEntries = true) ∧
+    (∀ a ∈ [G.dna, G.rna, G.amino, G.coins, G.dice], a.CaseInsensitive) := by
+  have h : ∀ a ∈ [G.dna, G.rna, G.amino, G.coins, G.dice], a.sameCaseEntries = true := by decide +kernel
+  exact ⟨h, fun a ha => caseInsensitive_of_entries a (h a ha)⟩
+
+/-- **custom alphabets, every history**: whatever calls came first (`pre`, any statuses), once `SetCaseInsensitive` returns eslOK
+    the input map reads both cases of every letter alike — this covers every mapping, symbol or synonym, present when it ran —,
+    and it still does after ANY further calls that do not name a letter as a new synonym or ignored character (the documented
+    order: synonyms first, `SetCaseInsensitive` last); a later letter synonym does break it (`later_letter_synonym_breaks`) -/
+theorem custom_history_case_insensitive (a : Alphabet) (pre post : List Call) (hl : (a.run pre).2.inmap.length = 128)
+    (hok : (a.run pre).2.setCaseInsensitive.1 = .ok) (hpost : ∀ c ∈ post, c.keepsCase) :
+    (a.run (pre ++ Call.caseins :: post)).2.CaseInsensitive ∧
+    (∃ b : Alphabet, b.CaseInsensitive ∧ ¬ (b.setEquiv 98 65).2.CaseInsensitive) :=
+  ⟨history_case_insensitive a pre post hl hok hpost, later_letter_synonym_breaks⟩
+
+example : (demoCustomBase.run [.equiv 49 45, .equiv 110 78]).2.inmap.length = 128 ∧
+    (demoCustomBase.run [.equiv 49 45, .equiv 110 78]).2.setCaseInsensitive.1 = .ok ∧
+    (∀ c ∈ [Call.degen 78 [65], .ignored [32, 9], .equiv 38 126, .caseins], c.keepsCase) := by
+  refine ⟨by decide +kernel, by decide +kernel, ?_⟩
+  intro c hc
+  simp only [List.mem_cons, List.not_mem_nil, or_false] at hc
+  rcases hc with rfl | rfl | rfl | rfl <;> simp [Call.keepsCase]
+
+/-- **custom alphabets, every history: `ndegen[x]` = size of the set of `x` and every row has exactly `K` flags (a subset of the
+    canonical residues)** after CreateCustom and ANY history of calls in any order with any statuses, provided each
+    `SetDegeneracy` lists pairwise distinct residues not yet in the set (`cleanRun`: checked at the moment of the call; a
+    rejected call leaves the effect of its accepted prefix, also clean) — so the averaging / counting theorems apply -/
+theorem custom_history_wfdegen (syms : List Nat) (K : Nat) (a : Alphabet) (hK : 1 ≤ K) (hKp : K + 4 ≤ syms.length)
+    (h : createCustom syms K syms.length = some a) (hist : List Call) (hc : cleanRun a hist) :
+    (a.run hist).2.WFDegen ∧
+    ∀ x, x < (a.run hist).2.Kp → ((a.run hist).2.degen.getD x []).length = (a.run hist).2.K ∧
+      (a.run hist).2.ndegen.getD x 0 = ((a.run hist).2.degenSet x).length := by
+  have hw := run_wfdegen hist a (createCustom_wfdegen syms K a hK hKp h).1 hc
+  exact ⟨hw, hw.2.2⟩
+
+example : cleanRun (createCustom (str "ACGT-RYN*~") 4 10 |>.getD G.dna)
+    [.degen 82 (str "AG"), .equiv 117 84, .degen 89 (str "CT!"), .caseins, .degen 65 (str "C"), .ignored [32]] := by
+  decide +kernel
+
+/-- **`esl_sq_Checksum`'s value** (the model is the exact `uint32_t` computation, compared with the code on every generated
+    sequence): each step `val += x; val += val << 10; val ^= val >> 6` is a bijection of the state for a fixed residue and
+    injective in the residue, the final mixing is a bijection — so the checksum tells apart ANY two sequences that differ in
+    exactly one residue, in digital mode and in text mode (bytes ≥ 0x80 are sign-extended there) -/
+theorem sq_checksum_detects_substitution (pre post : List Nat) (x y : Nat) (hx : x < 256) (hy : y < 256) (hne : x ≠ y) :
+    Sq.checksumDigital (pre ++ x :: post) ≠ Sq.checksumDigital (pre ++ y :: post) ∧
+    Sq.checksumText (pre ++ x :: post) ≠ Sq.checksumText (pre ++ y :: post) :=
+  Sq.checksum_substitution pre post x y hx hy hne
+
+/-- the state maps themselves: injective in the state, injective in the residue, final mixing injective -/
+theorem sq_checksum_steps_injective (v w b c : UInt32) :
+    (Sq.ckStep v b = Sq.ckStep w b → v = w) ∧ (Sq.ckStep v b = Sq.ckStep v c → b = c) ∧ (Sq.ckFinal v = Sq.ckFinal w → v = w) :=
+  ⟨Sq.ckStep_inj_left v w b, Sq.ckStep_inj_right v b c, Sq.ckFinal_inj v w⟩
+
+example : Sq.checksumDigital [] = 0 ∧ Sq.checksumText (str "ACGT") = Sq.checksumDigital (str "ACGT") ∧
+    Sq.checksumDigital [0, 1, 2, 3] ≠ Sq.checksumDigital [0, 1, 2, 2] ∧ Sq.checksumText [65, 200] ≠ Sq.checksumDigital [65, 200] := by
+  decide
 
 /-! ## degenerate scores and counts (over ℚ: the code as a rational function; IEEE rounding is L0, compared bit-exactly
       against the real code by the correspondence run) -/
